@@ -40,7 +40,7 @@ impl StarkConfig {
         self.n_queries * self.log_n_cosets + Felt::from(self.proof_of_work.n_bits)
     }
 //@end
-//@repo crates/stark/src/config.rs fn StarkConfig::validate props=C01,C02,C11
+//@repo crates/stark/src/config.rs fn StarkConfig::validate props=C01,C02,C09,C11
     pub fn validate(
         &self,
         security_bits: Felt,
@@ -48,7 +48,7 @@ impl StarkConfig {
         num_columns_second: Felt,
     ) -> (r: Result<(), Error>)
         ensures
-            r.is_ok() ==> 20 <= self.proof_of_work.n_bits <= 50,                   // [C01,C02,C11,C18:ok=>pow-bits-in-20..=50]
+            r.is_ok() ==> 20 <= self.proof_of_work.n_bits <= 50,                   // [C01,C02,C09,C11,C18:ok=>pow-bits-in-20..=50]
             r.is_ok() ==> 1 <= self.log_n_cosets@ <= 16,                            // [C01,C02,C11,C18:ok=>blowup-exponent-in-1..=16]
             r.is_ok() ==> 1 <= self.n_queries@ <= 48,                               // [C01,C02,C11,C17,C18:ok=>query-count-in-1..=48]
             r.is_ok() ==> security_bits@ <= self.n_queries@ * self.log_n_cosets@ + self.proof_of_work.n_bits as nat, // [C01,C02,C11:ok=>security-level-reached-as-integers]
